@@ -124,6 +124,18 @@ func checkC16(c OrgCase) Verdict {
 				return *f
 			}
 			nabs++
+		case strings.HasPrefix(it.RefAs, "far$:"):
+			o := offs[it.Ser] + 6
+			ia, err1 := x86asm.Decode(a[o:], 16)
+			ib, err2 := x86asm.Decode(b[o:], 16)
+			if err1 != nil || err2 != nil || ia.Len != ib.Len || ia.Op != ib.Op {
+				return fail("decode", "%q decodes differently at the two origins (%v / %v)", it.Text, err1, err2)
+			}
+			w := ia.DataSize / 8
+			if f := field(o+ia.Len-2-w, w, "insn "+it.Text); f != nil {
+				return *f
+			}
+			nabs++
 		case it.RefAs == "mem":
 			// the address is a disp16 somewhere inside the instruction (an immediate may follow it): located by decoding
 			o := offs[it.Ser] + 6
